@@ -308,6 +308,10 @@ func runBursts(f lib.Flags, mon *lib.Monitor, r *rand.Rand) {
 			mon.Count("skipped-after-leaking-cases:" + c.fn())
 			continue
 		}
+		if crashedFns[c.fn()] {
+			mon.Count("skipped-crashing-entry-point:" + c.fn())
+			continue
+		}
 		o := runBurst(c)
 		if len(burstContract(c, o)) > 0 {
 			mon.Count("retried-cases")
